@@ -12,7 +12,9 @@
 (* plus ".."; remove unlinks the name only if it still denotes this node   *)
 (* (a stale handle must not remove a newer file of the same name); a       *)
 (* removed directory stays usable through handles that reference it.       *)
-(* Offsets are symbolic classes resolved against the file length.          *)
+(* Offsets are symbolic classes resolved against the file length ("end+1"  *)
+(* stands for every offset beyond the end, up to 2^63-1, where offset +    *)
+(* count no longer fits an int64).                                         *)
 (***************************************************************************)
 EXTENDS Integers, Sequences, FiniteSets, TLC
 
